@@ -35,6 +35,8 @@ var runners = map[string]func(Config){
 	"C02": runC02,
 	"C03": runC03,
 	"C04": runC04,
+	"C05": runC05,
+	"C09": runC09,
 	"C13": runC13,
 	"C17": runC17,
 	"C18": runC18,
